@@ -21,11 +21,16 @@ SPECS["C05"] = {
         {"name": "VerifC05_HTTPClient", "native": False, "quick": {"params": [0, 1, 2, 3, 4, 5], "procs": 3}, "thorough": {"params": [0, 1, 2, 3, 4, 5, 6, 7], "procs": 4, "flags": ["-par", "3"]},
          "expect_reach": ["end", "rejected"]},
         {"name": "VerifC05_NatsHandler", "quick": {"params": lengths(10)}, "thorough": {"params": lengths(16)}},
+        {"name": "VerifC05_FramedStream", "native": False, "quick": {"params": lengths(16), "procs": 4}, "thorough": {"params": lengths(24), "procs": 8}},
+        {"name": "VerifC05_NatsServerFrame", "native": False, "quick": {"params": lengths(16), "procs": 4}, "thorough": {"params": lengths(24), "procs": 8}},
+        {"name": "VerifC05_SubscriberCallback", "quick": {"params": lengths(16), "procs": 4}, "thorough": {"params": lengths(24), "procs": 8}},
+        {"name": "VerifC05_MutatedRequest", "native": False, "flags": ["-max-concretize", "600", "-duration-witness"], "quick": {"params": list(range(0, 112, 2)), "bound": 4, "procs": 8}, "thorough": {"params": list(range(0, 112)), "bound": 4, "procs": 14},},
+        {"name": "VerifC05_MutatedPublish", "flags": ["-max-concretize", "600"], "quick": {"params": list(range(0, 116, 2)), "bound": 4, "procs": 8}, "thorough": {"params": list(range(0, 116)), "bound": 4, "procs": 14}},
     ])],
     "level_text": "Bounded symbolic model checking of the real receive paths: for every buffer length up to the bound and every byte content (and both capacity shapes) each entry point is executed symbolically from go/ssa; every slice/index/make/nil run-time check and every assertion is a z3 query, so 'no panic, value or error, terminates' holds for all inputs inside the bound. Outside: longer buffers, allocation sizes above 40 are represented by one witness per path, real sockets.",
     "level_note": "Trusted: go/ssa construction, the gose interpreter (validated per run by executing sampled path witnesses natively and comparing coverage labels), z3. Stubs: logrus (no-op), fmt (host formatting), errors.Is/As (chain walk), sync primitives (engine).",
-    "bounds": {"quick": "HTTP handler: base64 body of 0..4 characters from 4 classes, 5 Content-Length values, 5 limit headers; buffer length 0..10-16 bytes depending on the entry point (one engine process per length), all byte values, capacity = length or length+3",
-               "thorough": "buffer length 0..16-24 bytes"},
+    "bounds": {"quick": "HTTP handler: base64 body of 0..4 characters from 4 classes, 5 Content-Length values, 5 limit headers; buffer length 0..10-16 bytes depending on the entry point (one engine process per length), all byte values, capacity = length or length+3; mutated frames: a well-formed ~110-byte request / published frame with an arbitrary 4-byte window at every even offset",
+               "thorough": "buffer length 0..16-24 bytes; mutation window at every offset"},
     "assumptions": [],
 }
 
